@@ -771,7 +771,7 @@ package ugo
 //@ loop 0 step[returnvalue@C02] prev(vm.curInsts[vm.ip+1]) == byte(OpReturn) && prev(vm.curInsts[vm.ip+2]) == 1 ==> vm.stack[vm.sp-1] == prev(vm.stack[vm.sp-1])
 //@ loop 0 step[returnundef@C02] prev(vm.curInsts[vm.ip+1]) == byte(OpReturn) && prev(vm.curInsts[vm.ip+2]) != 1 ==> vm.stack[vm.sp-1] == Undefined
 //@ loop 0 step[finalizer@C03] prev(vm.curInsts[vm.ip+1]) == byte(OpFinalizer) ==> vm.sp == prev(vm.sp) && ((vm.ip == prev(vm.ip)+2) || (len(specHandlers(vm)) >= 1 && specHandlers(vm)[len(specHandlers(vm))-1].returnTo == prev(vm.ip)+1 && specHandlers(vm)[len(specHandlers(vm))-1].sp == vm.sp && specPendingErr(vm) == nil && specHandlers(vm)[len(specHandlers(vm))-1].finally > 0 && vm.ip == specHandlers(vm)[len(specHandlers(vm))-1].finally-1))
-//@ loop 1 invariant i >= bp-1 && vm.sp == prev(vm.sp) && vm.frameIndex == prev(vm.frameIndex) && vm.curFrame == prev(vm.curFrame) && vm.ip == prev(vm.ip)+1
+//@ loop 1 invariant vm.sp == prev(vm.sp) && vm.frameIndex == prev(vm.frameIndex) && vm.curFrame == prev(vm.curFrame) && vm.ip == prev(vm.ip)+1
 //@ loop 1 invariant[retslot@C02] (numRet == 1 ==> vm.stack[bp-1] == prev(vm.stack[vm.sp-1])) && (numRet != 1 ==> vm.stack[bp-1] == Undefined)
 //@ loop 0 step[loadmodule@C12] prev(vm.curInsts[vm.ip+1]) == byte(OpLoadModule) ==> vm.sp == prev(vm.sp)+2 && vm.ip == prev(vm.ip)+5 && specLoadModule(prev(vm.modulesCache[specOperand16(vm.curInsts, vm.ip+4)]), prev(vm.constants[specOperand16(vm.curInsts, vm.ip+2)]), vm.stack[prev(vm.sp)], vm.stack[prev(vm.sp)+1])
 //@ loop 0 step[storemodule@C12] prev(vm.curInsts[vm.ip+1]) == byte(OpStoreModule) ==> vm.sp == prev(vm.sp) && vm.ip == prev(vm.ip)+3 && vm.modulesCache[prev(specOperand16(vm.curInsts, vm.ip+2))] == vm.stack[vm.sp-1]
